@@ -1,4 +1,5 @@
 import RavenModel.Model.Lmtp
+import RavenModel.Model.LmtpLines
 /-! # C16 — the LMTP dialogue stays in step with the client and is transparent to data -/
 namespace Raven.Props.C16
 open Raven Raven.Lmtp
@@ -74,5 +75,24 @@ theorem replies_in_rcpt_order (env : Env) (st : St) (m : Bytes) (h : env.accept 
 example : run ⟨1000, 2⟩ ⟨fun _ => true, fun _ _ => true⟩
     (b!"LHLO x\r\nMAIL FROM:<a@b>\r\nRCPT TO:<c@d>\r\nRcpt To:<e@f> NOTIFY=NEVER\r\nRCPT TO:<g@h>\r\nDATA\r\nSubject: x\r\n\r\n..\r\nQUIT\r\n.\r\nNOOP\r\n")
     = [220, 250, 250, 250, 250, 250, 250, 250, 250, 452, 354, 250, 250, 250] := by decide
+
+/-- C16.7  the byte stream is read line by line and a line is what lies between two line feeds, **however long it is**: the
+reader hands out exactly the lines that were written — none cut in pieces, none merged — and an unterminated tail is no line.
+(The end-of-data test and the unstuffing of `runLines` therefore see true line starts only; a reader that hands a long line out
+in buffer-sized pieces would test a dot in the middle of a line.) -/
+theorem lines_as_written (ls : List Bytes) (tail : Bytes) (h : ∀ l ∈ ls, IsLine l) (ht : (10 : UInt8) ∉ tail) :
+    lines (ls.flatten ++ tail) = ls :=
+  lines_written ls tail h ht
+
+/-- C16.2' (transparency on the byte stream)  the octets of a dot-stuffed body followed by the terminator yield exactly the
+body, for lines of every length -/
+theorem transparent_on_bytes (cfg : Cfg) (env : Env) (st : St) (body : List Bytes) (term : Bytes)
+    (hq : st.quit = false) (hm : st.mode = .data [] 0 false)
+    (hl : ∀ l ∈ body, IsLine l) (hterm : isTerm term = true) (hsize : (body.flatten).length ≤ cfg.maxSize) :
+    runLines cfg env st (lines ((stuff body ++ [term]).flatten)) = endOfData env st (some body.flatten) :=
+  data_bytes_transparent cfg env st body term hq hm hl hterm hsize
+
+/-- non-vacuity: three lines (one a lone dot, stuffed on the wire), the terminator, and a tail without line end -/
+example : lines (b!"ab\r\n..\r\n\n.\r\nQUI") = [(b!"ab\r\n"), (b!"..\r\n"), (b!"\n"), (b!".\r\n")] := by decide
 
 end Raven.Props.C16
